@@ -202,6 +202,47 @@ static void randomCase(Rng &rng, CaseResult &r, bool cascade = false) {
   r.sig = what + "K" + std::to_string(K) + "S" + std::to_string(std::min(S / 4, 15)) + "c" + std::to_string(cmax <= 2 ? 0 : cmax <= 10 ? 1 : 2) + (td > tc ? "U" : td == tc ? "B" : "L") + (geometric ? "g" : "r") + (huge ? "H" : "") + (cascade ? "C" : "");
 }
 
+// Huge demands with capacities that are sums of some demands plus a tiny slack: when a sink is left with a handful of free
+// units, a solver that advances by the free units of a bottleneck (instead of by whole sources) needs a number of steps
+// proportional to the demands. The oracle is the usual one plus the CPU budget of the part (a few seconds for <= 6 x 6).
+static void nearFullCase(Rng &rng, CaseResult &r) {
+  int K = (int)rng.range(2, 6), S = (int)rng.range(2, 8);
+  ll lo = rng.chance(0.5) ? 1000000000LL : 1000000LL, hi = rng.chance(0.5) ? 1000000000000LL : 20000000000LL;
+  std::vector<ll> dem(S), cap(K, 0);
+  for (auto &d : dem) d = rng.range(lo, hi);
+  if (rng.chance(0.3)) for (auto &d : dem) d = d / 1000 * 1000;  // areas are products of sizes: common factors
+  for (int i = 0; i < S; ++i) cap[rng.range(0, K - 1)] += dem[i];
+  for (auto &c : cap) c += rng.range(0, 3);
+  if (rng.chance(0.5)) cap[rng.range(0, K - 1)] += rng.range(0, hi);
+  for (auto &c : cap) if (c == 0) c = rng.range(1, 3);
+  int cmax = (int)rng.pick(std::vector<int>{3, 20, 1000});
+  bool geometric = rng.chance(0.4);
+  std::vector<int> ps(S), pk(K);
+  for (auto &p : ps) p = (int)rng.range(0, cmax);
+  for (auto &p : pk) p = (int)rng.range(0, cmax);
+  std::vector<std::vector<int>> ci(K, std::vector<int>(S));
+  for (int k = 0; k < K; ++k)
+    for (int i = 0; i < S; ++i) ci[k][i] = geometric ? std::abs(ps[i] - pk[k]) : (int)rng.range(0, cmax);
+  if (r.needSample()) {
+    vf::J j = vf::J::obj();
+    j.kraw("capacities", vf::jarr(cap)).kraw("demands", vf::jarr(dem));
+    vf::J cm = vf::J::arr();
+    for (int k = 0; k < K; ++k) cm.raw(vf::jarr(ci[k]));
+    j.kraw("costs", cm.str());
+    r.sample = j.str();
+  }
+  if (r.dumpOnly) return;
+  TransportationProblem pb(cap, dem, ci);
+  try {
+    pb.solve();
+    checkSolved(pb, dem, false, "nearfull", r);
+  } catch (const std::exception &e) {
+    r.fail("C13:solver-threw-on-a-feasible-problem", std::string(e.what()) + ": nearfull " + pbStr(cap, dem, ci));
+  }
+  r.nontrivial = true;
+  r.sig = "nfK" + std::to_string(K) + "S" + std::to_string(S) + "c" + std::to_string(cmax) + (geometric ? "g" : "r") + (hi > 20000000000LL ? "H" : "h");
+}
+
 // exhaustive tiny: case = (S, K, demands, capacities) with values 1..3; enumerates every cost matrix over {0..cmaxv}
 static void exhaustiveCase(uint64_t idx, CaseResult &r, int costValues) {
   // decode
@@ -251,6 +292,7 @@ int main(int argc, char **argv) {
   std::vector<vf::Part> parts;
   parts.push_back({"c13.random", [](uint64_t, Rng &rng, CaseResult &r) { randomCase(rng, r); }, 20});
   parts.push_back({"c13.cascade", [](uint64_t, Rng &rng, CaseResult &r) { randomCase(rng, r, true); }, 20});
+  parts.push_back({"c13.nearfull", [](uint64_t, Rng &rng, CaseResult &r) { nearFullCase(rng, r); }, 5});
   parts.push_back({"c13.exhaustive2", [](uint64_t idx, Rng &, CaseResult &r) { exhaustiveCase(idx, r, 2); }, 300});
   parts.push_back({"c13.exhaustive3", [](uint64_t idx, Rng &, CaseResult &r) { exhaustiveCase(idx, r, 3); }, 900});
   return vf::runMain(argc, argv, parts);
